@@ -42,7 +42,8 @@ HeadingForms == {"0..360", "negative"}
 Eff(x) == IF "given" \in DOMAIN x THEN (IF x.given THEN x.h ELSE x.th) ELSE x.h
 \* a weather file is a coordinate-labelled array: the order in which it stores its
 \* pressure levels and latitudes (ERA5: both descending; "asc": both ascending)
-\* does not enter the result
+\* does not enter the result; neither does the order in which the file lists its variables u, v, t (the "asc"
+\* files list them t, v, u): they are found by name
 LayoutCases == [kind : {"field"}, h : {2, 9}, tas : {200}, f : {"lev", "mixed"}, u0 : {0}, v0 : {0}, hp : 0..2, hla : 0..2, hlo : 0..2, lay : {"asc"}]
 OutsideCases == [kind : {"outside"}, h : {2}, tas : {200}, side : {"north", "south", "east", "west", "above", "below"}]
 \* the data domain is closed: a point exactly on its outermost latitude / longitude line (or corner) is inside - it is
